@@ -144,3 +144,156 @@ def pots_check(prop, tier, seed, work, replay):
 
 REGISTRY["C02"] = pots_check
 REGISTRY["C16"] = pots_check
+
+
+# ------------------------------------------------------------------ C03
+def split_rank_table(path, outdir, nchunks):
+    """chunks of the score-sorted class table; the first line of a chunk repeats (carry) the last one before it"""
+    lines = open(path).read().splitlines()
+    per = max(200, (len(lines) + nchunks - 1) // nchunks)
+    files, maps = [], []
+    for k, a in enumerate(range(0, len(lines), per)):
+        chunk = lines[a:a + per]
+        first = a
+        if a > 0:
+            prev = json.loads(lines[a - 1])
+            prev["carry"] = True
+            chunk = [json.dumps(prev)] + chunk
+            first = a - 1
+        p = os.path.join(outdir, "rank%d.ndjson" % k)
+        open(p, "w").write("\n".join(chunk) + "\n")
+        files.append(p)
+        maps.append(first)
+    return files, maps
+
+
+def rank_check(prop, tier, seed, work, replay):
+    t0 = time.time()
+    binary = vlib.build_harness(work)
+    orders = 2 if tier == "quick" else 12
+    ranksets = ["{2,3,4,5,6,14}"] if tier == "quick" else ["{2,3,4,5,6,14}", "{6,7,8,9,10,11,12,13,14}"]
+    mcs = [generic_mc(work, "MCRank.tla", "mcrank%d" % i, dict(RankSet=rs, Tables='{"standard","short"}'), invariants=["Iso"], timeout=3600)
+           for i, rs in enumerate(ranksets)]
+    for m in mcs:
+        if not m["ok"]:
+            print("MODEL-NOTE: Score is not order-isomorphic to RefKey in the MODEL (%s): not a verdict" % m["violated"])
+
+    def run_table(tag):
+        d = work.sub(tag)
+        table = os.path.join(d, "ranktable.ndjson")
+        st = vlib.drive(binary, ["rank-table", "-o", table, "-orders", orders, "-seed", seed], timeout=3600)
+        files, _ = split_rank_table(table, d, max(4, vlib.NCPU // 2))
+        # every chunk is one TLC run; chunks are independent files
+        res = {"lines": 0, "viol": [], "drift": [], "cnt": {}, "tlc_s": 0}
+        import concurrent.futures as cf
+
+        def one(f):
+            return vlib.validate(work, [f], "RankTrace.tla", [prop], nchunks=1, heap="2g", independent=False)
+        with cf.ThreadPoolExecutor(max_workers=max(4, vlib.NCPU // 2)) as ex:
+            for f, r in zip(files, ex.map(one, files)):
+                res["lines"] += r["lines"]
+                for v in r["viol"]:
+                    v["src"] = f
+                    v["srcline"] = v["line"]
+                    v["resetline"] = None
+                res["viol"] += r["viol"]
+                res["drift"] += r["drift"]
+                for k, c in r["cnt"].items():
+                    res["cnt"][k] = res["cnt"].get(k, 0) + c
+        return st, res, table
+
+    st, res, table = run_table("rank")
+    log("[val] %d class lines, %d failed clauses, %d drift" % (res["lines"], len(res["viol"]), len(res["drift"])))
+    if replay:
+        if res["viol"]:
+            print("VIOLATION property=%s replay=%s" % (prop, replay))
+            return 1
+        print("replay: the evaluator's complete table satisfies C03")
+        return 0
+
+    def sig(v, line, rs):
+        return "%s|deck=%s|table=%s" % (v["clause"], (line or {}).get("deck"), (line or {}).get("table"))
+
+    def repro(v, line, rs):
+        st2, res2, _ = run_table("rerun")
+        again = [x for x in res2["viol"] if x["clause"] == v["clause"]]
+        return bool(again), dict(kind="rank-table", clause=v["clause"], failing_class=line,
+                                 note="replay re-enumerates the evaluator's complete table")
+    rc, nviol, known_hit = verdict.judge(prop, tier, seed, res["viol"], sig, repro, group_key=lambda v: (v["src"], v["srcline"], v["clause"]))
+    if res["drift"]:
+        print("MODEL-DRIFT: %d classes whose score differs from HandRank.Score; not a verdict" % len(res["drift"]))
+    sample = [json.loads(x) for x in open(table).read().splitlines()[5000:5003]]
+    coverage = {
+        "states": sum(m["distinct"] for m in mcs), "transitions": sum(m["generated"] for m in mcs),
+        "traces_validated_against_impl": 4,
+        "samples": sample,
+        "model_checking": mc_summary(mcs),
+        "evaluations": st.get("evaluations"), "classes": st.get("classes"),
+        "card_orders_per_hand": orders,
+        "class_lines_validated": res["lines"], "antecedents_exercised_on_real_code": res["cnt"],
+        "model_drift_lines": len(res["drift"]), "failed_clauses": sorted({v["clause"] for v in res["viol"]}),
+        "exhaustive": True,
+        "explanation": "all C(52,5) and C(36,5) hands under both ranking tables through combination.CalculatePower, reduced to classes; "
+                       "TLC checks order-isomorphism with HandRank.RefKey along the score-sorted table (adjacent pairs => all pairs by transitivity)",
+    }
+    vlib.write_evidence(prop, tier, seed, coverage, time.time() - t0, nviol,
+                        assumptions=["the class reduction in drv_rank.go (rank multiset + flush flag; every distinct result of a class is kept)",
+                                     "HandRank.RefKey states the rules of poker", "short-deck A-6-7-8-9 is excluded as the property leaves it open"])
+    if rc == 0 and st.get("classes") != 17732:
+        print("INCONCLUSIVE property=%s expected 17732 classes, got %s" % (prop, st.get("classes")))
+        return 2
+    return rc
+
+
+REGISTRY["C03"] = rank_check
+
+
+# ------------------------------------------------------------------ C10
+def besthand_check(prop, tier, seed, work, replay):
+    t0 = time.time()
+    binary = vlib.build_harness(work)
+    if replay:
+        return ec.run_replay_file(prop, work, binary, replay)
+    q = tier == "quick"
+    mcs = [generic_mc(work, "MCRank.tla", "mcrank0", dict(RankSet="{2,3,4,5,6,14}", Tables='{"standard","short"}'), invariants=["Iso"])]
+    dr = ec.Drive(work, binary)
+    dr.generic("deal", "holdem-deal", ["-runs", 260 if q else 12000, "-seed", seed])
+    dr.random("random", 220 if q else 8000, seed * 1000 + 11, [], runbase=0)
+    simfile = os.path.join(dr.d, "sim.scripts")
+    nsim = ec.sim_scripts(work, 60 if q else 1500, seed, simfile, 5000000)
+    dr.replay("sim", simfile, finish=True, seed=seed)
+    res = vlib.validate(work, sorted(dr.files), "HoldemTrace.tla", [prop], nchunks=max(4, vlib.NCPU // 2), heap="3g", timeout=3600)
+    log("[val] %d lines, %d failed clauses, %d drift, %.0fs" % (res["lines"], len(res["viol"]), len(res["drift"]), res["tlc_s"]))
+    rc, nviol, known_hit = verdict.judge(prop, tier, seed, res["viol"], ec.signature,
+                                         lambda v, line, rs: ec.reproduce(prop, work, binary, v, dr.files[v["src"]], line, rs))
+    if res["drift"]:
+        print("MODEL-DRIFT: %d recorded steps are not steps of the precise model / HandRank.Score; not a verdict" % len(res["drift"]))
+    cnt = res["cnt"]
+    streets = {k: v for k, v in cnt.items() if k.startswith("C10.")}
+    f0 = sorted(dr.files)[0]
+    smp = [x for x in vlib.read_lines(f0, 1, 60) if len(x["state"]["board"]) >= 3][:2]
+    samples = [{"board": x["state"]["board"], "players": [{"hole": p["hole"], "comb": p["comb"]} for p in x["state"]["P"]]} for x in smp]
+    coverage = {
+        "states": sum(m["distinct"] for m in mcs), "transitions": sum(m["generated"] for m in mcs),
+        "traces_validated_against_impl": int(cnt.get("runs", 0)) + 1,
+        "samples": samples or [{"note": "no flop in the first lines"}],
+        "model_checking": mc_summary(mcs),
+        "streets_evaluated_by_variant": streets,
+        "published_hands_checked": sum(streets.values()),
+        "real_steps_validated": res["lines"], "tlc_scripts": nsim,
+        "model_drift_lines": len(res["drift"]), "failed_clauses": sorted({v["clause"] for v in res["viol"]}),
+        "exhaustive": False,
+        "explanation": "sampled, not exhaustive over C(52,7): every street of constructed-deck hands (category boundaries), random hands and "
+                       "TLC-generated scripts; each published hand is compared by TLC with every admissible five-card selection under HandRank.RefKey",
+    }
+    vlib.write_evidence(prop, tier, seed, coverage, time.time() - t0, nviol,
+                        assumptions=["C03 (the evaluator orders five-card hands correctly) is checked separately and exhaustively",
+                                     "the driver re-runs combination.CalculatePower on the reported cards for the 'same hand' clause"])
+    need = [k for k in ("req0.standard", "req2.standard", "req0.short", "req2.short") if not any(k in s and v > 0 for s, v in streets.items())]
+    if rc == 0 and need:
+        print("INCONCLUSIVE property=%s variants never exercised: %s" % (prop, ",".join(need)))
+        return 2
+    return rc
+
+
+REGISTRY["C10"] = besthand_check
